@@ -49,17 +49,33 @@ MODULES = [
     "neuroml/nml/generatedssupersuper.py",
     "neuroml/nml/generatedscollector.py",
     "neuroml/build_time_validation.py",
+    # second pass: the rest of the import closure of the loader modules (see `reach`)
+    "neuroml/__init__.py",
+    "neuroml/__version__.py",
+    "neuroml/neuro_lex_ids.py",
+    "neuroml/nml/__init__.py",
 ]
+PKG_INIT = "neuroml/__init__.py"
+# the modules a loader entry point lives in: the import closure is computed from these (`reach`)
+ROOTS = ["neuroml/loaders.py", "neuroml/hdf5/NeuroMLHdf5Parser.py", "neuroml/hdf5/NeuroMLXMLParser.py",
+         "neuroml/hdf5/NetworkBuilder.py", "neuroml/hdf5/NetworkContainer.py", "neuroml/arraymorph.py",
+         "neuroml/utils.py", "neuroml/nml/nml.py", "neuroml/build_time_validation.py"]
+# configuration API: the functions of these modules are entries of the table, too, but they are "environment"
+# entries -- the user's explicit switches (enable/disable_build_time_validation), never called by a loader
+ENV_MODULES = {PKG_INIT}
 # every function/method of these is an entry point; of nml.py only the module-level functions are (plus one pseudo
 # entry for all methods), of utils/arraymorph nothing is (they are only followed transitively)
 ENTRY_ALL = {
     "neuroml/loaders.py", "neuroml/hdf5/__init__.py", "neuroml/hdf5/DefaultNetworkHandler.py",
     "neuroml/hdf5/NetworkBuilder.py", "neuroml/hdf5/NetworkContainer.py", "neuroml/hdf5/NeuroMLHdf5Parser.py",
-    "neuroml/hdf5/NeuroMLXMLParser.py",
+    "neuroml/hdf5/NeuroMLXMLParser.py", PKG_INIT,
 }
 ENTRY_TOPLEVEL = {"neuroml/nml/nml.py"}
 NML = "neuroml/nml/nml.py"
 NML_METHODS_ENTRY = NML + "::<generated-class methods>"
+# one pseudo entry stands for every method of the document classes (other use of the library between two loads):
+# the generated classes and the two hand-written base modules all of them inherit from
+OBJECT_METHOD_MODULES = {NML, "neuroml/nml/generatedssupersuper.py", "neuroml/nml/generatedscollector.py"}
 
 DOTTED = {  # dotted import name -> module path
     "neuroml.loaders": "neuroml/loaders.py", "neuroml.utils": "neuroml/utils.py",
@@ -73,6 +89,8 @@ DOTTED = {  # dotted import name -> module path
     "neuroml.nml.generatedssupersuper": "neuroml/nml/generatedssupersuper.py",
     "neuroml.nml.generatedscollector": "neuroml/nml/generatedscollector.py",
     "neuroml.build_time_validation": "neuroml/build_time_validation.py",
+    "neuroml.__version__": "neuroml/__version__.py", "neuroml.neuro_lex_ids": "neuroml/neuro_lex_ids.py",
+    "neuroml.nml": "neuroml/nml/__init__.py",
 }
 
 MUTABLE_CTORS = {"list", "dict", "set", "bytearray", "defaultdict", "OrderedDict", "deque", "Counter", "array",
@@ -100,6 +118,19 @@ PURE_PREFIXES = ("re_.", "re.", "os.path.", "os.getcwd", "math.", "np.", "numpy.
                  "datetime_.", "time_.", "inspect.", "warnings_.", "warnings.", "logging.", "etree_.", "sys.stdout.",
                  "sys.stderr.", "json.", "str.", "natsort.", "typing.")
 PURE_LOCAL_OK = {"print_method"}
+# process-global state of OTHER libraries reached through library calls: each is a named variable of kind `external`
+# (read + written by the function that contains the call), reviewed in Props/C07Gen.lean (`External`).
+EXTERNAL_STATE = {
+    "warnings.simplefilter": "ext:warnings.filters", "warnings.resetwarnings": "ext:warnings.filters",
+    "warnings.filterwarnings": "ext:warnings.filters", "warnings_.simplefilter": "ext:warnings.filters",
+    "logging.basicConfig": "ext:logging.root-config", "logging.disable": "ext:logging.root-config",
+    "tables.open_file": "ext:tables.open-file-registry(own handle)", "os.chdir": "ext:os.cwd",
+    "os.putenv": "ext:os.environ", "sys.setrecursionlimit": "ext:sys.recursionlimit",
+    "sys.path.append": "ext:sys.path", "sys.path.insert": "ext:sys.path", "random.seed": "ext:random.state",
+    "np.random.seed": "ext:numpy.random.state", "numpy.random.seed": "ext:numpy.random.state",
+    "locale.setlocale": "ext:locale", "etree_.register_namespace": "ext:lxml.namespace-registry",
+    "gc.disable": "ext:gc", "gc.enable": "ext:gc", "atexit.register": "ext:atexit",
+}
 KNOWN_DECORATORS = {"classmethod", "staticmethod", "property", "abstractmethod", "setter", "getter", "deleter",
                     "wraps"}
 
@@ -284,6 +315,14 @@ def declare(w, repo):
     # resolve bases, subclasses
     for key, c in w.classes.items():
         c["bases"] = [b for b in (resolve_class(w, key[0], bn) for bn in c["base_names"]) if b]
+    # a class defined at module level under a name that the module ALSO imports from a scanned module (the
+    # `try: from .x import C / except ImportError: class C: pass` fallback idiom of nml.py): either may be the class the
+    # name denotes at run time, so the local definition inherits everything of the imported one
+    for key, c in w.classes.items():
+        imp = w.imports[key[0]].get(key[1])
+        if imp and imp[0] == "from" and (imp[1], imp[2]) in w.classes and (imp[1], imp[2]) != key:
+            if (imp[1], imp[2]) not in c["bases"]:
+                c["bases"].append((imp[1], imp[2]))
     for key in w.classes:
         w.subclasses[key] = set()
     for key in w.classes:
@@ -563,6 +602,8 @@ class Builder:
         m = self.module_of_expr(recv)
         if m is not None:
             vn = w.mod_globals[m].get(e.attr)
+            if vn is None and m == NML:      # `neuroml.<name>`: the package's own names live in neuroml/__init__.py
+                vn = w.mod_globals.get(PKG_INIT, {}).get(e.attr)
             if vn is None and isinstance(e.ctx, ast.Store):
                 vn = w.add_var("%s::%s" % (m, e.attr), kind="modGlobal", mut="unk", mod=m, line=e.lineno)
                 w.mod_globals[m][e.attr] = vn
@@ -721,6 +762,8 @@ class Builder:
             if modp is not None:
                 if m in w.mod_funcs[modp]:
                     res["targets"] = [w.mod_funcs[modp][m]]
+                elif modp == NML and m in w.mod_funcs.get(PKG_INIT, {}):
+                    res["targets"] = [w.mod_funcs[PKG_INIT][m]]
                 elif (modp, m) in w.classes:
                     init = find_method(w, (modp, m), "__init__")
                     res["targets"] = [init] if init else []
@@ -773,10 +816,38 @@ class Builder:
             return res
         return res
 
+    def external_state(self, e):
+        """process-global state of another library touched by this call: a listed configuration call, or ANY call /
+        store that goes through a private (`_name`) member of an imported external module -- its internals"""
+        d = dotted(e.func) if isinstance(e, ast.Call) else dotted(e)
+        if not d:
+            return None
+        head = d.split(".")[0]
+        if head in self.locals and head not in self.local_imports:
+            return None
+        if head not in self.local_imports and ((self.f.mod, head) in self.w.classes or
+                                               head in self.w.mod_funcs[self.f.mod] or
+                                               head in self.w.mod_globals[self.f.mod]):
+            return None                  # a name the module defines itself (also under an import fallback)
+        if d in EXTERNAL_STATE:
+            return EXTERNAL_STATE[d]
+        imp = self.local_imports.get(head) or self.w.imports[self.f.mod].get(head)
+        if imp and imp[0] in ("ext", "pkg") and not (imp[0] == "pkg" and head == "neuroml"):
+            parts = d.split(".")
+            for i, part in enumerate(parts[1:], 1):
+                if part.startswith("_") and not (part.startswith("__") and part.endswith("__")):
+                    return "ext:" + ".".join(parts[: i + 1])
+        return None
+
     def call(self, e):
         w = self.w
         fn = e.func
         out = []
+        ext = self.external_state(e)
+        if ext is not None:
+            if ext not in w.vars:
+                w.vars[ext] = dict(kind="external", mut="unk", mod=self.f.mod, line=e.lineno)
+            out.append(self.rw(ext))
         r = self.resolve(e)
         targets = r["targets"]
         if isinstance(fn, ast.Name):
@@ -1347,6 +1418,73 @@ def mutates_self_closure(w):
                 changed = True
 
 
+# ------------------------------------------------------------------------------------------- reach
+def _module_file(repo, dotted_name):
+    """repository-relative path of the module / package `dotted_name` if it lives in the repository"""
+    rel = dotted_name.replace(".", "/")
+    for cand in (rel + ".py", rel + "/__init__.py"):
+        if os.path.isfile(os.path.join(repo, cand)):
+            return cand
+    return None
+
+
+def import_closure(repo, roots=None):
+    """every module of the repository that importing (and running) the ROOTS can import: all `import` / `from .. import`
+    statements anywhere in the file (function-level lazy imports included, `if __name__ == "__main__"` blocks
+    excluded), followed transitively; importing `a.b.c` also imports the packages `a` and `a.b`.
+    -> (sorted list of repository-relative paths, list of unresolvable-in-repo dotted names that start with `neuroml`)"""
+    seen, todo, dangling = [], list(roots or ROOTS), []
+    while todo:
+        mod = todo.pop()
+        if mod in seen:
+            continue
+        path = os.path.join(repo, mod)
+        if not os.path.isfile(path):
+            dangling.append(mod)
+            continue
+        seen.append(mod)
+        with open(path) as fh:
+            tree = ast.parse(fh.read(), filename=path)
+        pkg_parts = os.path.dirname(mod).split("/") if os.path.dirname(mod) else []
+
+        def add(dn):
+            parts = dn.split(".")
+            if parts[0] != "neuroml":
+                return False
+            found = False
+            for i in range(1, len(parts) + 1):
+                f = _module_file(repo, ".".join(parts[:i]))
+                if f:
+                    found = found or i == len(parts)
+                    if f not in seen:
+                        todo.append(f)
+            return found
+
+        def visit(node):
+            for ch in ast.iter_child_nodes(node):
+                if is_main_guard(ch):
+                    continue
+                if isinstance(ch, ast.Import):
+                    for a in ch.names:
+                        if not add(a.name) and a.name.split(".")[0] == "neuroml":
+                            dangling.append(a.name)
+                elif isinstance(ch, ast.ImportFrom):
+                    base = ch.module or ""
+                    if ch.level:
+                        up = pkg_parts[: len(pkg_parts) - (ch.level - 1)]
+                        base = ".".join(up + ([base] if base else []))
+                    if base:
+                        ok = add(base)
+                        for a in ch.names:       # `from pkg import submodule`
+                            if a.name != "*":
+                                add(base + "." + a.name)
+                        if not ok and base.split(".")[0] == "neuroml":
+                            dangling.append(base)
+                visit(ch)
+        visit(tree)
+    return sorted(seen), sorted(set(dangling))
+
+
 # ------------------------------------------------------------------------------------------- driver
 NML_ENTRIES = {"parse", "parseString", "parseEtree", "parseLiteral"}
 
@@ -1413,7 +1551,7 @@ def analyse(repo):
                 if not is_pvar(v) and not (v in shadowed and rk in ("S", "O")):
                     s[v] = comp1(s.get(v, ID), evt("mutate", rk))
             entries.append((fid, public, s))
-        elif f.mod == NML and f.cls is not None:
+        elif f.mod in OBJECT_METHOD_MODULES and f.cls is not None:
             nml_union = join(nml_union, weaken(s))
     if nml_union is not None:
         entries.append((NML_METHODS_ENTRY, False, nml_union))
@@ -1422,12 +1560,22 @@ def analyse(repo):
         rbw = sorted(v for v, e in s.items() if (e[0] or e[1]) and not is_pvar(v))
         wr = sorted(v for v, e in s.items() if (e[2] or e[3] or e[4]) and not is_pvar(v))
         table.append(dict(name=fid, public=public, rbw=rbw, writes=wr))
+    for e in table:
+        e["env"] = e["name"].split("::")[0] in ENV_MODULES
+    reach, dangling = import_closure(repo)
+    w.reach, w.reach_dangling = reach, dangling
+    for m in reach:
+        if m not in MODULES:
+            w.gaps.append("%s: module reachable from a loader entry point is not scanned" % m)
+    for d in dangling:
+        w.gaps.append("%s: import of a neuroml module that is not in the repository" % d)
     stats = dict(functions=len(w.funcs), classes=len(w.classes), vars=len(w.vars), entries=len(table),
-                 rounds=[rounds_b, r1, r2], opaque=len(w.gaps))
+                 rounds=[rounds_b, r1, r2], opaque=len(w.gaps), reach=len(reach), scanned=len(MODULES))
     return w, table, stats
 
 
-KIND = {"modGlobal": "modGlobal", "classAttr": "classAttr", "mutDefault": "mutDefault", "opaque": "opaque"}
+KIND = {"modGlobal": "modGlobal", "classAttr": "classAttr", "mutDefault": "mutDefault", "opaque": "opaque",
+        "external": "external"}
 
 
 def lean_str(s):
@@ -1477,6 +1625,15 @@ def emit(w, table, stats, out_lean, out_json=None):
     L.append("")
     L.append("def table : Table := ⟨vars, entries⟩")
     L.append("")
+    L.append("/-- names (ids) of the configuration entries: functions of the package's configuration API -/")
+    L.append("def envEntries : List Nat := [%s]" % ", ".join(str(idx[e["name"]]) for e in table if e.get("env")))
+    L.append("")
+    L.append("/-- import closure of the modules holding loader entry points (every import statement, lazy ones included) -/")
+    L.append("def reach : List String := [%s]" % ", ".join(lean_str(m) for m in w.reach))
+    L.append("")
+    L.append("/-- the modules whose module-level / class-level / default-argument state is in `vars` -/")
+    L.append("def scanned : List String := [%s]" % ", ".join(lean_str(m) for m in MODULES))
+    L.append("")
     L.append("end NmlVerif.Gen.Glue")
     text = "\n".join(L) + "\n"
     os.makedirs(os.path.dirname(out_lean), exist_ok=True)
@@ -1487,7 +1644,7 @@ def emit(w, table, stats, out_lean, out_json=None):
     side = dict(stats=stats, names=names,
                 vars=[dict(name=vn, **{k: (list(x) if isinstance(x, tuple) else x) for k, x in w.vars[vn].items()})
                       for vn in sorted(w.vars)],
-                entries=table, gaps=w.gaps)
+                entries=table, gaps=w.gaps, reach=w.reach, scanned=list(MODULES))
     if out_json:
         with open(out_json, "w") as fh:
             json.dump(side, fh, indent=1)
